@@ -26,7 +26,10 @@ EXPLANATION = (
     "predicate (node ON / OFF, software state equals the required state, interface enabled / disabled, file/folder "
     "found, found and not deleted, conjunction of parts) as a truth table over its inputs; R11.3 (cross-reference, "
     "informational) the documented mask logic of docs/source/action_masking.rst vs the validator chain on each "
-    "action's static route. NOT decided: agreement as a run-time behaviour in every transitional state (follows from "
+    "action's static route; R11.5 the mask is a function of the state the action will meet: check_valid stores nothing "
+    "and calls no mutator (no verdict memo), action_mask writes only mask entries, every simulator pre_timestep (which "
+    "runs between mask and action) and its helpers store no attribute a permission rule reads and call no life-cycle "
+    "operation, and PrimaiteGymEnv.step applies the actions before advancing time. NOT decided: agreement as a run-time behaviour in every transitional state (follows from "
     "R11.1 given validators are pure state predicates, R5.3)."
 )
 TECHNIQUE = "static: exhaustive truth table of check_valid vs __call__ over (key, validator, sub-manager, sub-tree), structural check of mask construction, validator predicate tables"
@@ -340,8 +343,106 @@ def r11_3(ctx: Ctx) -> None:
     ctx.floor("R11.3", "documented actions cross-referenced", n, 50)
 
 
+# state the permission rules read (R11.4) and operations that change it: nothing of this may happen between the moment the
+# mask is computed (after the previous step) and the moment the action is applied (after pre_timestep of the next step)
+GUARD_STATE = {"operating_state", "enabled", "deleted", "files", "folders", "deleted_files", "deleted_folders", "request_types",
+               "health_state_actual", "health_status"}
+LIFECYCLE_CALLS = {"power_on", "power_off", "reset", "start", "stop", "pause", "resume", "restart", "enable", "disable", "run",
+                   "close", "install", "uninstall", "delete", "restore", "delete_file", "delete_folder", "restore_file",
+                   "restore_folder", "create_file", "create_folder", "add_request", "remove_request", "set_health_state"}
+MUTATORS = {"setdefault", "update", "append", "add", "pop", "popitem", "clear", "extend", "insert", "remove", "__setitem__",
+            "__delitem__", "discard"}
+
+
+def _stores(fn_node: ast.AST) -> List[Tuple[ast.AST, str]]:
+    out = []
+    for n in ast.walk(fn_node):
+        tgts: List[ast.AST] = []
+        if isinstance(n, ast.Assign):
+            tgts = list(n.targets)
+        elif isinstance(n, (ast.AugAssign, ast.AnnAssign)) and getattr(n, "value", None) is not None:
+            tgts = [n.target]
+        elif isinstance(n, ast.Delete):
+            tgts = list(n.targets)
+        for t in tgts:
+            for x in ([t] if not isinstance(t, (ast.Tuple, ast.List)) else t.elts):
+                if isinstance(x, (ast.Attribute, ast.Subscript)):
+                    out.append((n, unparse(x)))
+    return out
+
+
+def r11_5(ctx: Ctx) -> None:
+    ix = ctx.ix
+    ctx.rule("R11.5", "the mask is a function of the state the action will meet: the dry run keeps no memory and has no effect, "
+                      "and nothing a permission rule reads is changed between mask and action (pre_timestep)")
+    cv = ix.method("RequestManager.check_valid")
+    bad = [f"line {n.lineno}: store to {t}" for n, t in _stores(cv.node)]
+    for c in calls_in(cv.node):
+        if call_name(c) in MUTATORS and isinstance(c.func, ast.Attribute):
+            bad.append(f"line {c.lineno}: {unparse(c.func)}(...) mutates its receiver")
+    ctx.record("R11.5", ctx.key(cv, "dry run stores nothing"), cv.loc(), not bad,
+               "check_valid performs no store and calls no mutator: each call evaluates the guards afresh" if not bad else
+               "check_valid keeps state between calls (a verdict remembered from an earlier request or an earlier state can be "
+               "served for this one)", bad[:6])
+    am = ix.method("PrimaiteGame.action_mask")
+    badm = [f"line {n.lineno}: store to {t}" for n, t in _stores(am.node) if not re.match(r"mask\[", t)]
+    ctx.record("R11.5", ctx.key(am, "mask construction stores only mask entries"), am.loc(), not badm,
+               "only mask[...] is written" if not badm else "action_mask writes other state", badm[:6])
+    # pre_timestep closure
+    n_pre = 0
+    for fn in ix.all_functions():
+        if fn.name != "pre_timestep" or fn.cls is None or not fn.path.startswith("src/primaite/simulator/"):
+            continue
+        n_pre += 1
+        todo, seen = [fn], {id(fn)}
+        problems: List[str] = []
+        depth = {id(fn): 0}
+        while todo:
+            f = todo.pop()
+            for nd, t in _stores(f.node):
+                m = re.match(r"self\.(\w+)", t)
+                if m and m.group(1) in GUARD_STATE:
+                    problems.append(f"{f.short} line {nd.lineno}: stores {t}")
+            for c in calls_in(f.node):
+                nm = call_name(c)
+                if nm in LIFECYCLE_CALLS and isinstance(c.func, ast.Attribute) and not (isinstance(c.func.value, ast.Call) and call_name(c.func.value) == "super"):
+                    problems.append(f"{f.short} line {c.lineno}: calls {unparse(c.func)}()")
+                if isinstance(c.func, ast.Attribute) and unparse(c.func.value) == "self" and depth[id(f)] < 2 and f.cls is not None:
+                    h = ix.find_method(f.cls, c.func.attr)
+                    if h is not None and id(h) not in seen and not isinstance(h.node, ast.Lambda) and h.name != "pre_timestep":
+                        seen.add(id(h))
+                        depth[id(h)] = depth[id(f)] + 1
+                        todo.append(h)
+        ctx.record("R11.5", ctx.key(fn, "pre_timestep leaves guard state alone"), fn.loc(), not problems,
+                   "resets per-step counters only" if not problems else
+                   "state a permission rule reads changes after the mask was computed and before the action is applied: a "
+                   "masked-out action can succeed / an offered one be refused", problems[:6])
+    ctx.floor("R11.5", "pre_timestep implementations", n_pre, 12)
+    # the environment applies the action before it advances time
+    st = ix.method("PrimaiteGymEnv.step")
+    g = CFG(st.node)
+    adv = [n for n in g.nodes if any(call_name(c) in ("advance_timestep", "apply_timestep") for c in node_calls(n))]
+    app = [n for n in g.nodes if any(call_name(c) == "apply_agent_actions" for c in node_calls(n))]
+    if not app:
+        raise AnalysisError("R11.5: PrimaiteGymEnv.step no longer calls apply_agent_actions")
+    p = None
+    for a in adv:
+        p = p or g.path_avoiding(app, lambda e: False, start=a)
+    ctx.record("R11.5", ctx.key(st, "actions are applied before time advances"), st.loc(), p is None,
+               "no advance_timestep precedes apply_agent_actions in step()" if p is None else
+               "time advances between the mask and the action", path_text(p))
+
+
+
 def check(ctx: Ctx) -> None:
-    r11_1(ctx)
+    r11_5(ctx)
+    try:
+        r11_1(ctx)
+    except AnalysisError:
+        # a dry run that keeps memory (R11.5) has no truth table: report the violation, not an analysis failure
+        if not any(i.rule == "R11.5" and not i.ok for i in ctx.instances):
+            raise
+        ctx.note("R11.1 not evaluated: check_valid is not a pure function of (request, state) - see R11.5")
     r11_2(ctx)
     r11_4(ctx)
     r11_3(ctx)
